@@ -233,4 +233,32 @@ VARIANTS = [
             "                return session\n        return None\n",
      "new": "        found = next((s for s in self.sessions if s.id == session_id and s.pending), None)\n"
             "        if found is not None:\n            found.pending = False\n        return found\n"},
+    # ------------------------------------------------------------------ round 5
+    {"name": "R3 banned message listed a second time as template", "file": "hippolyzer/lib/base/message/data/message.xml",
+     "expect": "C06.R3",
+     "old": "\t\t\t\t<key>LandStatReply</key>\n\t\t\t\t<map>\n\t\t\t\t\t<key>flavor</key>\n\t\t\t\t\t<string>llsd</string>\n"
+            "\t\t\t\t\t<key>trusted-sender</key>\n\t\t\t\t\t<boolean>false</boolean>\n",
+     "new": "\t\t\t\t<key>LandStatReply</key>\n\t\t\t\t<map>\n\t\t\t\t\t<key>flavor</key>\n\t\t\t\t\t<string>template</string>\n"
+            "\t\t\t\t\t<key>trusted-sender</key>\n\t\t\t\t\t<boolean>false</boolean>\n"},
+    {"name": "P R3 new message row with a fresh key", "file": "hippolyzer/lib/base/message/data/message.xml", "expect": "silent",
+     "old": "\t\t\t\t<key>LandStatReply</key>\n\t\t\t\t<map>\n\t\t\t\t\t<key>flavor</key>\n\t\t\t\t\t<string>llsd</string>\n"
+            "\t\t\t\t\t<key>trusted-sender</key>\n\t\t\t\t\t<boolean>false</boolean>\n",
+     "new": "\t\t\t\t<key>HipposaSelfTestOnly</key>\n\t\t\t\t<map>\n\t\t\t\t\t<key>flavor</key>\n\t\t\t\t\t<string>template</string>\n"
+            "\t\t\t\t\t<key>trusted-sender</key>\n\t\t\t\t\t<boolean>false</boolean>\n"},
+    {"name": "P R2 UDPPacket as a dataclass", "file": BT, "expect": "silent",
+     "old": "class UDPPacket:\n    def __init__(\n            self,\n            src_addr: Optional[ADDR_TUPLE],\n"
+            "            dst_addr: ADDR_TUPLE,\n            data: bytes,\n            direction: Direction\n    ):\n"
+            "        self.src_addr = src_addr\n        self.dst_addr = dst_addr\n        self.data = data\n"
+            "        self.direction = direction\n        self.meta = {}\n",
+     "new": "import dataclasses as _dc\n\n\n@_dc.dataclass(eq=False)\nclass UDPPacket:\n    src_addr: Optional[ADDR_TUPLE]\n"
+            "    dst_addr: ADDR_TUPLE\n    data: bytes\n    direction: Direction\n"
+            "    meta: dict = _dc.field(default_factory=dict, init=False)\n"},
+    {"name": "R2 dataclass UDPPacket with src/dst fields swapped", "file": BT, "expect": "C06.R2",
+     "old": "class UDPPacket:\n    def __init__(\n            self,\n            src_addr: Optional[ADDR_TUPLE],\n"
+            "            dst_addr: ADDR_TUPLE,\n            data: bytes,\n            direction: Direction\n    ):\n"
+            "        self.src_addr = src_addr\n        self.dst_addr = dst_addr\n        self.data = data\n"
+            "        self.direction = direction\n        self.meta = {}\n",
+     "new": "import dataclasses as _dc\n\n\n@_dc.dataclass(eq=False)\nclass UDPPacket:\n    dst_addr: ADDR_TUPLE\n"
+            "    src_addr: Optional[ADDR_TUPLE]\n    data: bytes\n    direction: Direction\n"
+            "    meta: dict = _dc.field(default_factory=dict, init=False)\n"},
 ]
